@@ -352,7 +352,9 @@ def execute(run):
         timed_out = True
     state_sig = digest([dim, cfg['family'], cfg['simplify'],
                         [o['key'] for o in run['ops']]])
-    return {'violations': viol[:3], 'digest': tr.hexdigest(),
+    return {'violations': viol[:3],
+            'digest': ('inconclusive-timeout' if timed_out
+                       else tr.hexdigest()),
             'n_ops': len(run['ops']), 'faults': faults, 'probes': probes,
             'state_sig': state_sig,
             'nontrivial': curved and bool(
